@@ -9,6 +9,7 @@ of the generator passes and any change of meaning is reported with a witness."""
 from .. import sym, lift, setalg
 from ..sym import TRUE, FALSE
 from .common import B, loc
+from .names import names
 
 T = "cozy_chess_types::"
 PIECE = T + "piece::Piece"
@@ -181,7 +182,7 @@ def split_conds(L, conds, to_expr):
 
 def extract_sites(f, L, name, cgen=None, tgen=None):
     body = f.need(name)
-    se = sym.SymExec(f, body, cgen=cgen or {}, tgen=tgen or {})
+    se = sym.SymExec(f, body, cgen=cgen or {}, tgen=tgen or {}, rename=gen_rename(f, name))
     paths = se.run()
     sites = {}
     for p in paths:
@@ -348,13 +349,43 @@ def compare_sites(ctx, tag, body, code_sites, spec, lenient_extra=False):
                      "no batch is generated for %s (origin set %s)" % (ss["name"], sym.show(ss["loop"])[:200]), loc(body))
 
 
-GEN = {
-    "Pawn": B + "::add_pawn_legals",
-    "Knight": B + "::add_knight_legals",
-    "King": B + "::add_king_legals",
-}
-SLIDER = B + "::add_slider_legals"
-SLIDER_TYPES = {p: "cozy_chess::board::movegen::slider::" + p for p in ("Bishop", "Rook", "Queen")}
+def gen_key(f, piece):
+    """generator function of a piece kind, by role (resolved from the public dispatch function, see names.py)"""
+    return names(f).generators["Slider" if piece in ("Bishop", "Rook", "Queen") else piece]
+
+
+def slider_key(f):
+    return names(f).generators["Slider"]
+
+
+def slider_types(f):
+    """the three instantiations of the slider generator: its type parameter's implementors, labelled by their PIECE constant"""
+    out = {}
+    for k, c in f.consts.items():
+        if k.endswith("::PIECE") and k.startswith("<") and " as " in k and c.get("v") in (2, 3, 4):
+            ty = k[1:k.index(" as ")]
+            out[{2: "Bishop", 3: "Rook", 4: "Queen"}[c["v"]]] = ty
+    if set(out) != {"Bishop", "Rook", "Queen"}:
+        from ..facts import MissingAnchor
+        raise MissingAnchor("the three slider kinds (found %s)" % sorted(out))
+    return out
+
+
+def gen_rename(f, key):
+    """canonical parameter names for a (private) generator: self, mask, listener"""
+    N = names(f)
+    b = f.need(key)
+    rn = {b.local_name(1): "self"}
+    try:
+        rn[N.mask_param(key)] = "mask"
+        rn[N.listener_param(key)] = "listener"
+    except Exception:
+        pass
+    return rn
+
+
+def tparam(f):
+    return names(f).slider_type_param
 
 
 def check_generators(ctx, f, L):
@@ -364,10 +395,10 @@ def check_generators(ctx, f, L):
         cg = {"IN_CHECK": TRUE if in_check else FALSE}
         for piece in ("Pawn", "Knight", "Bishop", "Rook", "Queen"):
             tag = "%s/%s" % (piece, "check" if in_check else "nocheck")
-            if piece in GEN:
-                body, paths, sites = extract_sites(f, L, GEN[piece], cg)
+            if piece in ("Pawn", "Knight", "King"):
+                body, paths, sites = extract_sites(f, L, gen_key(f, piece), cg)
             else:
-                body, paths, sites = extract_sites(f, L, SLIDER, cg, {"P": SLIDER_TYPES[piece]})
+                body, paths, sites = extract_sites(f, L, slider_key(f), cg, {tparam(f): slider_types(f)[piece]})
             ctx.saw("%s [%s]: %d paths, %d listener sites" % (body.key, tag, len(paths), len(sites)))
             # piece tag of the batch
             for s in sites:
@@ -397,8 +428,8 @@ def king_safe_spec(square, s=SELF):
 
 def check_king_safe_on(ctx, f, L):
     """king_safe_on(square) is true iff none of the five attacker sets (with the own king lifted) is non-empty"""
-    body = f.need(B + "::king_safe_on")
-    paths = sym.SymExec(f, body).run()
+    body = f.need(names(f).king_safe_on)
+    paths = sym.SymExec(f, body, rename={body.local_name(1): "self", body.local_name(2): "square"}).run()
     ctx.saw("%s: %d paths" % (body.key, len(paths)))
     sq = ("param", "square")
     spec = {k: setalg.canon(v) for k, v in king_safe_spec(sq).items()}
@@ -444,10 +475,13 @@ def check_king_safe_on(ctx, f, L):
 
 def check_can_castle(ctx, f, L):
     from .. import geom, evalx
-    body = f.need(B + "::can_castle")
-    paths = sym.SymExec(f, body).run()
+    N = names(f)
+    body = f.need(N.can_castle)
+    paths = sym.SymExec(f, body, rename={body.local_name(1): "self", body.local_name(2): "rook", body.local_name(3): "king_dest",
+                                         body.local_name(4): "rook_dest"}).run()
     ctx.saw("%s: %d paths" % (body.key, len(paths)))
-    rook = ("sq", ("param", "rook"), ("relrank", 0, STM))
+    # the castling rook is named by its file (on the mover's back rank) or handed over as a square
+    rook = ("sq", ("param", "rook"), ("relrank", 0, STM)) if body.locals[2]["ty"].endswith("file::File") else ("param", "rook")
     kd = ("sq", ("param", "king_dest"), ("relrank", 0, STM))
     rd = ("sq", ("param", "rook_dest"), ("relrank", 0, STM))
     safe_set = OR(("between", K, kd), bb(kd))
@@ -494,7 +528,7 @@ def check_can_castle(ctx, f, L):
         okp = len(rest) == 1
         if okp:
             e, v = rest[0][0], rest[0][1]
-            okp = e[0] == "call" and e[1] == B + "::king_safe_on" and e[2][1] == ("elem", p.conds[li][0][1][1]) \
+            okp = e[0] == "call" and e[1] == N.king_safe_on and e[2][1] == ("elem", p.conds[li][0][1][1]) \
                 and e[2][0][0] == "ptr" and e[2][0][1] == ("P", "self")
             if okp and v == 1:
                 okp = p.end == "loopback"
@@ -556,8 +590,8 @@ def check_king_generator(ctx, f, L):
     for in_check in (False, True):
         tag = "King/%s" % ("check" if in_check else "nocheck")
         cg = {"IN_CHECK": TRUE if in_check else FALSE}
-        body = f.need(GEN["King"])
-        paths = sym.SymExec(f, body, cgen=cg).run()
+        body = f.need(gen_key(f, "King"))
+        paths = sym.SymExec(f, body, cgen=cg, rename=gen_rename(f, body.key)).run()
         ctx.saw("%s [%s]: %d paths" % (body.key, tag, len(paths)))
         step_set = AND(("kingmoves", K), NOT(OWN))
         # (a) accumulation loop: paths that come back to the loop header
@@ -572,7 +606,7 @@ def check_king_generator(ctx, f, L):
             for e, v in conds:
                 if e[0] == "discr" and e[1][0] == "next" and v == 1:
                     loopset = e[1][1]
-                if e[0] == "call" and e[1] == B + "::king_safe_on":
+                if e[0] == "call" and e[1] == names(f).king_safe_on:
                     safe = (e, v)
             if loopset is None:
                 continue
@@ -639,7 +673,7 @@ def check_king_generator(ctx, f, L):
                     for ce, v in conds:
                         if ce == ("discr", rf):
                             some = (v == 1)
-                        if ce[0] == "call" and ce[1] == B + "::can_castle":
+                        if ce[0] == "call" and ce[1] == names(f).can_castle:
                             a = ce[2]
                             if a[1] == ("field", ("downcast", rf, "Some"), "0"):
                                 can = (v == 1, a[2], a[3])
@@ -678,7 +712,8 @@ def flatten_or(e):
 def check_dispatch(ctx, f, L):
     body = f.need(B + "::generate_moves_for")
     paths = sym.SymExec(f, body, noinline=None).run() if False else \
-        sym.SymExec(f, body, inline=lambda n: False if n.endswith("_legals") else None).run()
+        sym.SymExec(f, body, inline=lambda n: False if n in (names(f).roster, gen_key(f, "King")) else None,
+                    rename={body.local_name(1): "self", names(f).mask_param(body.key): "mask"}).run()
     ctx.saw("%s: %d paths" % (body.key, len(paths)))
     arms = {}
     for p in paths:
@@ -695,8 +730,9 @@ def check_dispatch(ctx, f, L):
             ctx.fail("dispatch:ret", "generate_moves_for does not return a generator's flag", loc(body))
             continue
         ok_args = r[2][0][0] == "ptr" and r[2][0][1] == ("P", "self") and r[2][1] == ("param", "mask")
-        arms[k] = (r[1].rsplit("::", 1)[-1], r[3] if len(r) > 3 else (), ok_args)
-    want = {0: ("add_all_legals", "false"), 1: ("add_all_legals", "true"), "other": ("add_king_legals", "true")}
+        role = "roster" if r[1] == names(f).roster else ("king-generator" if r[1] == gen_key(f, "King") else r[1].rsplit("::", 1)[-1])
+        arms[k] = (role, r[3] if len(r) > 3 else (), ok_args)
+    want = {0: ("roster", "false"), 1: ("roster", "true"), "other": ("king-generator", "true")}
     for k, (fn, flag) in want.items():
         got = arms.get(k)
         ok = got is not None and got[0] == fn and flag in got[1] and got[2]
@@ -713,13 +749,16 @@ def check_dispatch(ctx, f, L):
 
 def check_roster(ctx, f, L):
     """add_all_legals calls one generator per piece kind with (self, mask, listener, IN_CHECK) and aborts as soon as one reports true"""
-    body = f.need(B + "::add_all_legals")
+    N = names(f)
+    body = f.need(N.roster)
+    gen_of = {v: k for k, v in N.generators.items()}
+    st_of = {v: k for k, v in slider_types(f).items()}
     for in_check in (False, True):
         cg = {"IN_CHECK": TRUE if in_check else FALSE}
-        paths = sym.SymExec(f, body, cgen=cg, inline=lambda n: False).run()
+        paths = sym.SymExec(f, body, cgen=cg, inline=lambda n: False, rename=gen_rename(f, body.key)).run()
+
         def gen_calls(p_):
-            return [e for e in p_.events if e.kind == "call" and e.depth == 0 and e.name.rsplit("::", 1)[-1].startswith("add_")
-                    and e.name.endswith("_legals")]
+            return [e for e in p_.events if e.kind == "call" and e.depth == 0 and e.name in gen_of]
         # the path on which no generator aborted: it answers false, or hands back the verdict of the last generator
         full = [p for p in paths if p.ret == FALSE or (gen_calls(p) and p.ret == gen_calls(p)[-1].ret and
                                                        all(any(c[0] == e.ret and c[1] == 0 for c in p.conds) for e in gen_calls(p)[:-1]))]
@@ -730,12 +769,9 @@ def check_roster(ctx, f, L):
         for e in p.events:
             if e.kind != "call" or e.depth != 0:
                 continue
-            nm = e.name.rsplit("::", 1)[-1]
-            kind = None
-            if nm == "add_slider_legals":
-                kind = e.targs[0].rsplit("::", 1)[-1] if e.targs else "?"
-            elif nm.startswith("add_") and nm.endswith("_legals"):
-                kind = nm[4:-7].capitalize()
+            kind = gen_of.get(e.name)
+            if kind == "Slider":
+                kind = next((st_of[x] for x in e.targs if x in st_of), "?")
             if kind is None:
                 continue
             flag = "true" if in_check else "false"
@@ -756,19 +792,19 @@ def check_roster(ctx, f, L):
             ctx.check(ok, "roster:abort-chain", "add_all_legals has a path that does not end with `a generator returned true -> return true`", loc(body))
     # slider PIECE constants are three distinct slider kinds
     kinds = {}
-    for p_, ty in SLIDER_TYPES.items():
-        c = f.consts.get("<%s as cozy_chess::board::movegen::slider::SlidingPiece>::PIECE" % ty)
+    for p_, ty in slider_types(f).items():
+        c = next((c_ for k_, c_ in f.consts.items() if k_.startswith("<%s as " % ty) and k_.endswith("::PIECE")), None)
         kinds[p_] = None if c is None else c.get("v")
     ctx.check(kinds == {"Bishop": 2, "Rook": 3, "Queen": 4}, "roster:slider-piece-consts",
               "slider generator instances are not labelled Bishop/Rook/Queen: %s" % kinds)
-    for p_, ty in SLIDER_TYPES.items():
-        b = f.bodies.get("<%s as cozy_chess::board::movegen::slider::SlidingPiece>::pseudo_legals" % ty)
+    for p_, ty in slider_types(f).items():
+        b = next((b_ for k_, b_ in f.bodies.items() if k_.startswith("<%s as " % ty) and b_.argc == 2 and b_.locals[0]["ty"].endswith("BitBoard") and b_.promoted is None), None)
         if b is None:
             ctx.fail("roster:pseudo:%s" % p_, "no pseudo_legals for %s" % p_)
             continue
         ps = sym.SymExec(f, b).run()
         r = L.lift(ps[0].ret) if len(ps) == 1 and ps[0].ret else None
-        sq, bl = ("param", "square"), ("param", "blockers")
+        sq, bl = ("param", b.local_name(1)), ("param", b.local_name(2))
         want = {"Bishop": ("bishopmoves", sq, bl), "Rook": ("rookmoves", sq, bl),
                 "Queen": OR(("bishopmoves", sq, bl), ("rookmoves", sq, bl))}[p_]
         ctx.check(r is not None and setalg.equivalent(r, want), "roster:pseudo:%s" % p_,
@@ -782,12 +818,12 @@ def check_abort_contract(ctx, f, L):
     for in_check in (False, True):
         cg = {"IN_CHECK": TRUE if in_check else FALSE}
         for piece in ("Pawn", "Knight", "Bishop", "Rook", "Queen", "King"):
-            if piece in GEN:
-                body = f.need(GEN[piece])
-                paths = sym.SymExec(f, body, cgen=cg).run()
+            if piece in ("Pawn", "Knight", "King"):
+                body = f.need(gen_key(f, piece))
+                paths = sym.SymExec(f, body, cgen=cg, rename=gen_rename(f, body.key)).run()
             else:
-                body = f.need(SLIDER)
-                paths = sym.SymExec(f, body, cgen=cg, tgen={"P": SLIDER_TYPES[piece]}).run()
+                body = f.need(slider_key(f))
+                paths = sym.SymExec(f, body, cgen=cg, tgen={tparam(f): slider_types(f)[piece]}, rename=gen_rename(f, body.key)).run()
             tag = "%s/%s" % (piece, "check" if in_check else "nocheck")
             for p in paths:
                 ls = [e for e in p.events if is_listener_call(e)]
